@@ -95,6 +95,9 @@ func main() {
 		fmt.Printf("VIOLATION property=%s replay=%s/evidence/replay/%s-analysis-failure.json\n", *prop, *verif, *prop)
 		os.Exit(code)
 	}
+	if *tier == "thorough" && os.Getenv("WTF_NO_SELFVAL") == "" {
+		rep.Analysed["self_validation"] = selfValidate(*prop, *verif, *repo)
+	}
 	cmd := fmt.Sprintf("bin/wtfcheck -prop %s -tier %s -repo %s", *prop, *tier, *repo)
 	os.Exit(rep.Finish(*verif, cmd))
 }
